@@ -89,13 +89,16 @@ struct SimFs {
   int fail_open_at = -1, fail_fstat_at = -1, fail_mmap_at = -1, fail_fstatfs_at = -1;
   int opens = 0, fstats = 0, mmaps = 0, fstatfss = 0, closes = 0, munmaps = 0;
   int open_fds = 0, live_maps = 0;       // ledgers (only objects created through the seam)
+  int foreign_closes = 0;                // close() of a descriptor that was not opened through the seam (not yara's to close)
   int faults_fired = 0;
   // FILE* layer (rules save/load by path)
   int64_t fwrite_fail_after_bytes = -1;  // disk full: bytes accepted before short writes start
   int64_t fwritten = 0;
   bool fclose_fails = false;
+  bool refuse_foreign_close = false;     // do not really close descriptors yara does not own (keeps the harness's files intact)
 };
 extern SimFs g_fs;
+extern bool (*g_fail_mmap_hook)();   // per-thread decision: make this mmap fail
 extern void (*g_after_mmap)();      // called right after a successful mmap made by yara code
 void sim_fs_reset();
 
